@@ -87,6 +87,9 @@ func (un *Unit) scopeFor(fr *Frame, cur, old *State, results []Val) *Scope {
 			}
 		}
 	}
+	if fr.fn == un.fn && un.selfRef != "" {
+		sc.vars["this"] = SV{t: un.selfRef, typ: fn.Signature}
+	}
 	if fr.contract != nil && len(fr.contract.Names) > 0 && fr.fn == un.fn {
 		// contract parameter names bind positionally (interface contracts checked against an implementation)
 		for i, n := range fr.contract.Names {
@@ -1089,6 +1092,37 @@ func (un *Unit) applyContract(fr *Frame, st *State, fc *FuncContract, names []st
 		}
 		sc.vars[n] = SV{t: args[i].t, typ: t, place: args[i].place}
 	}
+	// function-typed parameters declared with a funcspec: the actual argument must be a function known to implement it
+	for pn, fsName := range fc.Params {
+		for i, n := range names {
+			if n != pn || i >= len(args) {
+				continue
+			}
+			a := args[i]
+			okImpl := false
+			if a.fn != nil {
+				if ac := un.lookupFuncContract(a.fn); ac != nil && ac.Impl == fsName {
+					okImpl = true
+				}
+			}
+			if !okImpl && fr.contract != nil {
+				// passing on one's own parameter of the same funcspec
+				for _, p := range fr.fn.Params {
+					if fr.env[p].t == a.t && fr.contract.Params[p.Name()] == fsName {
+						okImpl = true
+					}
+				}
+			}
+			goal := "false"
+			if okImpl {
+				goal = "true"
+			}
+			if goal != "true" {
+				un.oblige(st, "pre", un.uniqueName(fmt.Sprintf("%s/call-pre/%s:%s-implements-%s", funcKey(un.fn), shortKey(calleeKey), pn, fsName)), nil, goal, pos,
+					"the function passed as "+pn+" is declared to implement funcspec "+fsName)
+			}
+		}
+	}
 	fr.calls[calleeKey]++
 	ord := fr.calls[calleeKey]
 	// preconditions
@@ -1116,6 +1150,7 @@ func (un *Unit) applyContract(fr *Frame, st *State, fc *FuncContract, names []st
 	// frame
 	if !fc.Pure {
 		un.bumpNext(st)
+		un.havocVolatile(st)
 	}
 	for _, cl := range fc.Clauses {
 		if cl.Kind == "modifies" {
@@ -1492,5 +1527,72 @@ func (un *Unit) applyCallback(fr *Frame, st *State, fc *FuncContract, names []st
 	for i := range rs {
 		rt := cbSig.Results().At(i).Type()
 		vars[fmt.Sprintf("cb_ret%d", i)] = SV{t: rs[i].t, typ: rt}
+	}
+}
+
+
+// closureScope: the captured variables of a closure, by name, as they are in state st.
+func (un *Unit) closureScope(fn *ssa.Function, binds []Val, st *State, fr *Frame) *Scope {
+	sc := &Scope{un: un, vars: map[string]SV{}, cur: st, old: st, pkg: un.pkgOf(fn), fr: fr}
+	for i, fv := range fn.FreeVars {
+		if i >= len(binds) {
+			break
+		}
+		v := binds[i]
+		if pt, ok := fv.Type().(*types.Pointer); ok {
+			if isStructType(pt.Elem()) {
+				sc.vars[fv.Name()] = SV{t: v.t, typ: fv.Type()}
+			} else {
+				p := un.placeOf(st, v, pt.Elem())
+				sc.vars[fv.Name()] = SV{t: un.loadPlace(st, p), typ: pt.Elem()}
+			}
+		}
+	}
+	return sc
+}
+
+// attrFacts: for a closure value ref, the definitions of its contract's abstract predicates.
+func (un *Unit) attrFacts(ref string, fn *ssa.Function, binds []Val, st *State, fr *Frame) {
+	fc := un.lookupFuncContract(fn)
+	if fc == nil || len(fc.Attrs) == 0 {
+		return
+	}
+	for _, at := range fc.Attrs {
+		sf, ok := un.specs.SpecFns[at.Name]
+		if !ok {
+			un.outside = "attr " + at.Name + ": no spec fn of that name"
+			return
+		}
+		sc := un.closureScope(fn, binds, st, fr)
+		var bindsQ, args []string
+		args = append(args, ref)
+		for _, p := range at.Params {
+			t, srt, err := sc.resolveType(p.Type)
+			if err != nil {
+				un.outside = "attr " + at.Name + ": " + err.Error()
+				return
+			}
+			un.u.fresh++
+			qn := fmt.Sprintf("qa_%s!%d", sanitize(p.Name), un.u.fresh)
+			bindsQ = append(bindsQ, "("+qn+" "+srt+")")
+			sc.vars[p.Name] = SV{t: qn, typ: t, sort: srt}
+			args = append(args, qn)
+		}
+		body, _ := un.evalSpec(at.E, sc)
+		// declare the spec fn symbol (first parameter is the function value)
+		var as []string
+		for _, p := range sf.Params {
+			_, ps, _ := sc.resolveType(p.Type)
+			as = append(as, ps)
+		}
+		_, rs, _ := sc.resolveType(sf.Sort)
+		un.u.declareFun("sf_"+sf.Name, as, rs)
+		app := "(sf_" + sf.Name + " " + strings.Join(args, " ") + ")"
+		un.u.usesQuant = true
+		if len(bindsQ) == 0 {
+			un.addFact(eq(app, body))
+		} else {
+			un.addFact("(forall (" + strings.Join(bindsQ, " ") + ") " + eq(app, body) + ")")
+		}
 	}
 }
